@@ -21,13 +21,18 @@ RULE = ("one case = (parser, accepted configuration, variant): parser = 1-5 leav
         "float|str, int|float, bool|int, List[int]|str, ...), List, Dict[str,T], Dict[int,T], Tuple[...], Tuple[T,...], Set, "
         "Literal, two Enums (one whose member names are YAML booleans/null), two dataclasses used as type-hint VALUES (Limits, "
         "Sched with a nested Optional[Limits]; below Optional / List / Dict / Tuple, fields left out, given, or explicitly null over "
-        "None and non-None field defaults), nesting depth <= 3, and a well-typed default or "
+        "None and non-None field defaults), a subclass-typed argument (Base with classes Base / Sub(**kwargs forwarded) / KW(only "
+        "**kwargs): class_path short or full, init_args left out / given / null, dict_kwargs; at the leaf or below Optional; "
+        "default None or a spec), nesting depth <= 3, and a well-typed default or "
         "None; configuration = the parser's own answer to generated typed values given as an object or as argv; str values "
         "from a pool of scalar look-alikes (1e3, 1_0, 0x1F, 1:30, .inf, null, ~, yes, on, 2001-01-01, <<, =, ...), YAML "
         "syntax (leading/trailing space, ': ', ' #', '- ', quotes, flow brackets, multi-line, tabs, control and non-BMP "
         "characters, NEL/DEL/C1) and random strings over a numeric-looking alphabet, also as dict keys; variant = "
         "dump(yaml|json|json_indented, skip_none=False)[+skip_default], --print_config[=skip_default|comments] re-fed through "
-        "--cfg, save()[default skip_none | skip_none=False] + parse_path; quick: systematic single-leaf sweep of the pool over every str-admitting type and format, 9 dataclass-valued configurations x 8 variants, and of "
+        "--cfg, save()[default skip_none | skip_none=False] + parse_path; a quarter of the random cases and a dedicated sweep run on a "
+        "parser object with a HISTORY (earlier dumps incl. skip_default, an earlier parse, then set_defaults() or a default config "
+        "file changing a declared default; the configuration then often sets that key back to its OLD default) and are judged "
+        "against the defaults in force at the end; subclass specs: 6 specs x 3 defaults x 8 variants; quick: systematic single-leaf sweep of the pool over every str-admitting type and format, 9 dataclass-valued configurations x 8 variants, and of "
         "every str-admitting type and format + 900 random cases, thorough: + 9000; non-trivial = the configuration was "
         "accepted and has a non-None leaf; distinct = distinct (declaration, configuration, variant)")
 TRUSTED = [
@@ -45,12 +50,17 @@ ASSUMPTIONS = [
     "declared defaults are well typed (or None); argument keys are identifiers",
     "dict and set values are compared unordered (Python ==), everything else value for value and type for type; NaN = NaN",
     "Any-typed leaves hold JSON-like values whose strings the loader reads as themselves",
+    "a parser's answers do not depend on what was done with the parser object before: a case with a history is judged by the "
+    "same stateless model, given the declared defaults in force when the configuration is parsed",
+    "subclass-typed arguments: at a leaf or below Optional (prev_val reaches them), constructor parameters of scalar types, "
+    "declared default None or a spec without dict_kwargs; class_path is compared as the parser normalises it",
 ]
 EXHAUSTIVE = {"quick": False, "thorough": False}
 FINDING_CLASSES = {1: "save-skip-none-null-over-default",   # class 2 (skip-default-trims-dict-leaf) repaired: /repo d576475
                    3: "skip-default-eq-conflates-types", 4: "json-nonfinite-float", 5: "unprintable-str",
                    6: "comments-reemit", 7: "enum-member-null", 8: "default-not-normalised",
-                   9: "skip-default-none-default-crash", 10: "skip-default-drops-dict-kwargs"}
+                   9: "skip-default-none-default-crash", 10: "skip-default-drops-dict-kwargs",
+                   12: "skip-default-prune-vs-carry-over"}
 # class 11 (skip_default pruned the init_args of a subclass spec) is outside the proved statement but NOT a finding: a
 # failure there is reported as a violation
 
@@ -917,17 +927,17 @@ META = {
                   "every parser (typed leaves under nested groups), configuration and variant (yaml/json, nulls kept or "
                   "dropped, skip_default; i.e. dump, print_config, save) inside the guard, if each leaf value survives its own "
                   "serialise/parse pair then dump -> text -> parse returns the configuration value for value and type for type. "
-                  "Four _refuted witnesses show the unguarded statement false of the faithful model. Exercised by the "
+                  "Seven _refuted witnesses show the unguarded statement false of the faithful model. Exercised by the "
                   "correspondence only: that each accepted leaf value survives serialise/parse (leaf_stable is a premise of "
-                  "(P), evaluated per case over the whole type grammar incl. Union/Literal/Enum/Set/Dict[int]/dataclass-typed values), the real "
+                  "(P), evaluated per case over the whole type grammar incl. Union/Literal/Enum/Set/Dict[int]/dataclass-typed values/subclass specs with dict_kwargs), the real "
                   "dump / --print_config / save+parse_path paths, nested groups, and the model itself (data handed to the "
                   "dumper, loader's view of the text, re-parsed configuration, every written str and float against PyYAML).",
     "level_note": "Partial: premises of (V)/(P) are Python's int/float <-> text conversions (int_text_ok, yfloat_text_ok, "
                   "jfloat_text_ok; checked per observed float by the judge) and per-leaf stability; PyYAML's emitter/scanner "
                   "are trusted for document structure and for the characters of a scalar (known false for U+0085 and, from "
                   "JSON text, C1 controls / U+FFFE / U+FFFF / U+2028-9: finding unprintable-str). yaml_comments output "
-                  "(re-emitted by ruyaml) is not modelled (finding comments-reemit). Seven open findings are guarded by class (an eighth, skip-default-drops-changed-class, concerns subclass specs and is listed with a standalone reproduction and a fix patch) "
-                  "(Model/C01Guard.v) and reported as KNOWN-FINDING. parser_mode yaml only; no subclass specs, dataclasses expanded as groups, "
+                  "(re-emitted by ruyaml) is not modelled (finding comments-reemit). Nine open findings are guarded by class (Model/C01Guard.v classes 1,3-10); class 11 (skip_default pruned a subclass spec's init_args) is outside the proved statement without being a finding: failures there are violations. Histories on one parser object (dump, parse, set_defaults, default config file) are exercised by the correspondence only "
+                  "(Model/C01Guard.v) and reported as KNOWN-FINDING. parser_mode yaml only; no dataclasses expanded as groups, no subclass specs inside containers or with nested class parameters, "
                   "subcommands, links, toml/jsonnet; a dataclass directly as the type of a leaf (behaves as an expanded group) is outside the space. No axioms (Print Assumptions: closed under the global context).",
     "technique": "Rocq proof: verified regex-inclusion certificates over regenerated resolver tables + structural induction on "
                  "values and leaf lists; correspondence of a hand-written value-level model with real dump/print_config/save "
